@@ -1041,7 +1041,21 @@ def _compare_remainder(remainder: e.Expr, ref_remainder: e.Expr,
     factored = factor_denom(factored[0])
     if len(factored) > 1:  # denominators are not compatible
         return None
-    return 1 if factored[0].sympy is S.Zero else -1
+    if factored[0].sympy is S.Zero:
+        return 1
+    # eri parts and denominators are compatible, but the difference does not
+    # vanish: the remainders are only equal up to a factor of -1 if their sum
+    # vanishes (the numerators might differ: x e_i vs. x e_a)
+    summed = remainder + ref_remainder
+    if summed.sympy is S.Zero:
+        return -1
+    summed = factor_eri_parts(summed)
+    if len(summed) > 1:
+        return None
+    summed = factor_denom(summed[0])
+    if len(summed) > 1 or summed[0].sympy is not S.Zero:
+        return None
+    return -1
 
 
 class LongItmdVariants(dict):
